@@ -500,7 +500,7 @@ impl<'a> SymmetricDiff<'a> {
 //@ as: fn btree_symmetric_diff<'a>(this: &'a BTreeMap<u64, u64>, other: &'a BTreeMap<u64, u64>) -> (r: SymmetricDiff<'a>)
 //@ rule R3 re: `\bself\.keys\(\)` => `vx_btree_keys(this)` x1
 //@ rule R8 re: `\bother\.keys\(\)` => `vx_btree_keys(other)` x1
-//@ rule R3 re: `\bself\b` => `this` x1
+//@ rule R3 re: `\bself\b` => `this` x*
 //@ props: C18
 //@ contract:
 //@|     ensures
@@ -516,6 +516,7 @@ impl<'a> SymmetricDiff<'a> {
 //@ as: fn btree_symmetric_fold<'a, R, F: FnMut(R, (&'a u64, DiffElement<&'a u64>)) -> R>(this: &'a BTreeMap<u64, u64>, other: &'a BTreeMap<u64, u64>, init: R, f: F) -> (r: R)
 //@ rule R3: `self.symmetric_diff(other)` => `btree_symmetric_diff(this, other)` x1
 //@ rule R8: `.fold(init, f)` => `.vx_fold(init, f)` x1
+//@ rule R3 re: `\bself\b` => `this` x*
 //@ props: C18
 //@ contract:
 //@|     ensures
@@ -532,6 +533,7 @@ impl<'a> SymmetricDiff<'a> {
 //@ rule R3: `self.deref()` => `this.deref()` x1
 //@ rule R3: `self_target.symmetric_diff(other_target)` => `btree_symmetric_diff(self_target, other_target)` x1
 //@ rule R8: `.fold(init, f)` => `.vx_fold(init, f)` x1
+//@ rule R3 re: `\bself\b` => `this` x*
 //@ props: C18
 //@ contract:
 //@|     ensures
